@@ -1,6 +1,6 @@
 (* Run/C21.v — case decoder / observable encoder for the C21 correspondence.
-   case  (cns ideal ((id size (kid ...)) ...) (op ...))
-     op  (0 (node ...) ((child parent) ...))   Update (insertion order, account-root references)
+   case  (cns ideal ((id size (kid ...)) ...) (op ...) extra)      extra = blobs, used by Go only
+     op  (0 (node ...) ((child parent) ...) sets)   Update (insertion order, account-root references; sets: Go only)
          (1 child parent)                      Reference
          (2 root)                              Dereference
          (3 limit)                             Cap
@@ -37,7 +37,7 @@ Definition dec_pair (s : sx) : option (N * N) :=
 
 Definition dec_op (s : sx) : option op :=
   match s with
-  | SL [SI 0%Z; ns; rs] =>
+  | SL [SI 0%Z; ns; rs; _] =>
       match sx_list_of sx_N ns, sx_list_of dec_pair rs with
       | Some ns', Some rs' => Some (OUpdate ns' rs')
       | _, _ => None
@@ -79,7 +79,7 @@ Fixpoint run_ops (w : world) (cns ideal : Z) (ids : list N) (ops : list op) (st 
 
 Definition C21_run (c : sx) : sx :=
   match c with
-  | SL [SI cns; SI ideal; wl; ol] =>
+  | SL [SI cns; SI ideal; wl; ol; _] =>
       match sx_list_of dec_node wl, sx_list_of dec_op ol with
       | Some nodes, Some ops =>
           let w := fold_left (fun m n => mset (fst n) (snd n) m) nodes (mempty : world) in
